@@ -108,9 +108,17 @@ class Wr(rbql_engine.RBQLOutputWriter):
         if self.sched is not None: self.sched.yield_point(self.tid)
         self.finished += 1
 
-def run_one(text, table, btable, sched=None, tid=0, header=None, bheader=None, init=''):
-    it = It([r[:] for r in table], sched, tid, header); w = Wr(sched, tid); warnings = []
-    reg = None if btable is None else rbql_engine.ListTableRegistry([rbql_engine.ListTableInfo('b', [r[:] for r in btable], bheader)])
+def run_one(text, table, btable, sched=None, tid=0, header=None, bheader=None, init='', shared=None):
+    if shared is not None:
+        # the caller's OBJECTS are handed to every query of the sequence: the same input table, the same join table, ONE registry object
+        it = It(table, sched, tid, header); w = Wr(sched, tid); warnings = []
+        key = id(btable)
+        if btable is not None and key not in shared:
+            shared[key] = rbql_engine.ListTableRegistry([rbql_engine.ListTableInfo('b', btable, bheader)])
+        reg = None if btable is None else shared[key]
+    else:
+        it = It([r[:] for r in table], sched, tid, header); w = Wr(sched, tid); warnings = []
+        reg = None if btable is None else rbql_engine.ListTableRegistry([rbql_engine.ListTableInfo('b', [r[:] for r in btable], bheader)])
     if ' from t1' in text:
         # the input table comes from the registry (query(.., input_iterator=None, ..)): the FROM statement must be recognised
         class Reg(rbql_engine.RBQLTableRegistry):
@@ -164,8 +172,15 @@ elif mode == 'interleave':
                 break
         if len(bad) >= 3: break
     print(json.dumps({'n': n, 'alternating': alternating, 'bad': bad}, default=repr))
-elif mode == 'history':
+elif mode in ('history', 'shared-history'):
     pool, maxlen = arg
+    shared = {} if mode == 'shared-history' else None
+    if shared is not None:
+        canon_t = {}
+        for q in pool:      # equal tables become ONE object, as a caller holding a table would pass it
+            q['table'] = canon_t.setdefault('a' + json.dumps(q['table']), q['table'])
+            if q['btable'] is not None:
+                q['btable'] = canon_t.setdefault('b' + json.dumps(q['btable']), q['btable'])
     bad = []; n = 0
     executed = []      # every query this process has run so far, in order: the true history of each comparison
     for L in range(1, maxlen + 1):
@@ -173,7 +188,7 @@ elif mode == 'history':
             n += 1
             for pos, qi in enumerate(seq):
                 q = pool[qi]
-                got = run_one(q['text'], q['table'], q['btable'], None, 0, q.get('header'), q.get('bheader'), q.get('init', ''))
+                got = run_one(q['text'], q['table'], q['btable'], None, 0, q.get('header'), q.get('bheader'), q.get('init', ''), shared)
                 want = {k: v for k, v in q['solo'].items() if k != 'steps'}
                 if got != want and len(bad) < 3:
                     bad.append({'sequence': [pool[j]['text'] for j in seq], 'position': pos, 'query': q['text'], 'table': q['table'], 'header': q.get('header'),
@@ -386,6 +401,27 @@ def run(res, tier, seed):
     for k in range(h3['n']):
         res.nontrivial.add(('probe-history', k))
     res.exhaustive['all sequences of <= 2 queries from a pool of %d stage failures, probes of interpreter-wide state and two ordinary queries' % len(probe_pool)] = True
+    # the caller's objects shared by the whole sequence (one input table object, one join table object, one registry object): a query that
+    # keeps, drains or edits what it was handed shows up in the next one
+    sh_names = ('select', 'update', 'sorted', 'aggregate', 'join', 'dcount', 'unnest')
+    sh_pool = [dict(q) for q in queries if q['name'] in sh_names]
+    for name, text, needs_b in (('star', 'select *', False), ('star-dcount', 'select distinct count *', False), ('star-distinct', 'select distinct *', False),
+                                ('join-star', 'select * join b on a1 == b1', True), ('join-bstar', 'select b.* left join b on a1 == b1', True),
+                                ('strict-join', 'select a1, b2 strict left join b on a2 == b1', True), ('update-join', 'update set a2 = b2 join b on a1 == b1', True)):
+        sh_pool.append({'name': name, 'text': text, 'table': table, 'btable': BTABLE if needs_b else None, 'abstract': None})
+    with ThreadPoolExecutor(max_workers=common.NPROC) as ex:
+        sh_solos = list(ex.map(lambda q: impl('solo', [q['text'], q['table'], q['btable'], q.get('header'), q.get('bheader'), q.get('init', '')]), sh_pool))
+    for q, so in zip(sh_pool, sh_solos):
+        q['solo'] = so
+    h4 = impl('shared-history', [sh_pool, 2 if tier == 'quick' else 3], 3000)
+    res.evaluations += h4['n']
+    res.count('shared_object_histories', h4['n'])
+    for k in range(h4['n']):
+        res.nontrivial.add(('shared-history', k))
+    res.exhaustive['all sequences of <= %d queries from a pool of %d over the SAME table objects and ONE registry object' % (2 if tier == 'quick' else 3, len(sh_pool))] = True
+    for bd in h4['bad'][:2]:
+        res.violations.append({'property': 'C16', 'impl': 'py', 'why': 'a query run after other queries over the same table / registry objects gave a result different from the fresh-interpreter run', 'detail': bd,
+                               'case_key': 'C16|shared-history|%s|%d' % (json.dumps(bd['sequence']), bd['position'])})
     csv_history_check(res, tier)
     for bd in h['bad'][:2] + h2['bad'][:2] + h3['bad'][:2]:
         res.violations.append({'property': 'C16', 'impl': 'py', 'why': 'a query run after other queries gave a result different from the fresh-interpreter run', 'detail': bd,
